@@ -1,6 +1,6 @@
 #!/bin/bash
 # runs the thorough tier of every registered check (except C19, which takes hours) one after the other; summary on stdout
-cd "$(dirname "$0")/.."
+cd "$(dirname "$0")/.."; mkdir -p work
 for id in ${@:-C01 C02 C03 C04 C05 C06 C07 C08 C10 C11 C12 C14 C15 C16 C17 C18 C20}; do
   s=$(date +%s)
   timeout 14000 ./check $id --tier thorough > work/thorough_$id.log 2>&1; rc=$?
